@@ -27,6 +27,20 @@ API_WRITERS = {
 }
 
 
+def _expiry_tests(cfg: Any, now: Optional[str] = None) -> List[Tuple[Any, bool]]:
+    """(test node, label of the edge on which the record has not expired) for every test that is `x.is_expired(now)` or its negation."""
+    out: List[Tuple[Any, bool]] = []
+    for t in cfg.nodes:
+        if t.kind != 'test' or t.ast is None:
+            continue
+        e, live = t.ast, False
+        while isinstance(e, ast.UnaryOp) and isinstance(e.op, ast.Not):
+            e, live = e.operand, not live
+        if isinstance(e, ast.Call) and call_name(e) == 'is_expired' and (now is None or [norm(a) for a in e.args] == [now]):
+            out.append((t, live))
+    return out
+
+
 @rule('C18.EXPIRY', 'D', expect_min=8)
 def expiry(ctx: Any) -> List[Ob]:
     """Result-field writer table of a service description: outside the constructor
@@ -63,14 +77,11 @@ def expiry(ctx: Any) -> List[Ob]:
         if qual in API_WRITERS:
             obs.append(ob(R, f, f'{len(writes)} write(s) of result fields', f'allowed writer: {API_WRITERS[qual]}', True))
             continue
-        guards = []
-        for t in cfg.nodes:
-            if t.kind == 'test' and any(call_name(c) == 'is_expired' for c in t.calls()) and not isinstance(t.ast, ast.UnaryOp):
-                # if record.is_expired(now): return False
-                if all(s.kind in ('return', 'continue', 'raise') for s, lab in t.succ if lab is True):
-                    guards.append(t)
+        guards = _expiry_tests(cfg)
         for n, text in writes:
-            ok = cfg.dominated_by_any(n, guards)
+            # reached only through the edge of an expiry test on which the record has NOT expired (either spelling:
+            # `if r.is_expired(now): return` or `if not r.is_expired(now): <use r>`)
+            ok = any(cfg.only_through_edge(t, live, n) for t, live in guards)
             why = 'dominated by `if record.is_expired(now): return`' if ok else ''
             if not ok and isinstance(n.ast, ast.Assign):
                 # value comes from the expiry-filtered cache reader
@@ -84,8 +95,8 @@ def expiry(ctx: Any) -> List[Ob]:
     cfg = cfg_of(g.node)
     now = g.params[2]
     app = cfg.nodes_calling('append')
-    guards = [t for t in cfg.nodes if t.kind == 'test' and any(call_name(c) == 'is_expired' and [norm(a) for a in c.args] == [now] for c in t.calls()) and all(s.kind == 'continue' for s, lab in t.succ if lab is True)]
-    obs.append(ob(R, g, 'if record.is_expired(now): continue', 'addresses loaded from the cache skip expired records', bool(app) and all(cfg.dominated_by_any(a, guards) for a in app)))
+    guards2 = _expiry_tests(cfg, now)
+    obs.append(ob(R, g, 'if record.is_expired(now): continue', 'addresses loaded from the cache skip expired records', bool(app) and all(any(cfg.only_through_edge(t, live, a) for t, live in guards2) for a in app)))
     # _set_text callers
     st = info.methods['_set_text']
     callers = {s.caller.qual.split('.', 1)[1] for s in ctx.cg.callers_of(st)}
